@@ -267,11 +267,14 @@ static void c03_attached_phase(int G, int k, bool ortho, double buf, int os) {
                     // shape, is axis-parallel, the cut shape ABUTS that attached shape (closed rectangles meet) and the cut shape's own centre
                     // pin lies on the segment's line: the two pins' visibility segments touch on the common side and are merged into one
                     // line of sight that runs through the cut shape.
-                    for (int e : {ci.a, ci.b}) if (e >= 0) { R re = toR(sc[e]), rc = toR(sc[m]); double ex = (re.x0 + re.x1) * S / 2.0, ey = (re.y0 + re.y1) * S / 2.0, cx = (rc.x0 + rc.x1) * S / 2.0, cy = (rc.y0 + rc.y1) * S / 2.0;
+                    // (the cut shape may also be reached through a CHAIN of abutting shapes whose centre pins are all on that line)
+                    for (int e : {ci.a, ci.b}) if (e >= 0) { R re = toR(sc[e]); double ex = (re.x0 + re.x1) * S / 2.0, ey = (re.y0 + re.y1) * S / 2.0;
                         bool atEnd = (q == 1 && rt.ps[0].x == ex && rt.ps[0].y == ey) || (q + 1 == rt.size() && rt.ps[q].x == ex && rt.ps[q].y == ey);
-                        bool abut = !(re.x1 < rc.x0 || rc.x1 < re.x0 || re.y1 < rc.y0 || rc.y1 < re.y0);
-                        bool vert = rt.ps[q - 1].x == rt.ps[q].x, hori = rt.ps[q - 1].y == rt.ps[q].y;
-                        if (atEnd && abut && ((vert && cx == ex) || (hori && cy == ey)) && find(kc2.begin(), kc2.end(), "ray_through_abutting_shape_with_aligned_pin") == kc2.end()) kc2.push_back("ray_through_abutting_shape_with_aligned_pin"); }
+                        bool vert = rt.ps[q - 1].x == rt.ps[q].x, hori = rt.ps[q - 1].y == rt.ps[q].y; if (!atEnd || !(vert || hori)) continue;
+                        vector<char> reach(k, 0); reach[e] = 1; bool grew = true;
+                        while (grew) { grew = false; for (int u = 0; u < k; u++) if (reach[u]) for (int w2 = 0; w2 < k; w2++) if (!reach[w2]) { R ru = toR(sc[u]), rw = toR(sc[w2]); double wx = (rw.x0 + rw.x1) * S / 2.0, wy = (rw.y0 + rw.y1) * S / 2.0;
+                            bool abut = !(ru.x1 < rw.x0 || rw.x1 < ru.x0 || ru.y1 < rw.y0 || rw.y1 < ru.y0); if (abut && ((vert && wx == ex) || (hori && wy == ey))) { reach[w2] = 1; grew = true; } } }
+                        if (reach[m] && find(kc2.begin(), kc2.end(), "ray_through_abutting_shape_with_aligned_pin") == kc2.end()) kc2.push_back("ray_through_abutting_shape_with_aligned_pin"); }
                     ctx.violation("through_shape", kc2, desc, route_str(rt)); }
                 if (bad) continue;
                 if (ortho) for (size_t q = 1; q < rt.size(); q++) if (rt.ps[q].x != rt.ps[q - 1].x && rt.ps[q].y != rt.ps[q - 1].y) { ctx.violation("not_orthogonal", {"attached"}, desc, route_str(rt)); break; }
